@@ -265,6 +265,36 @@ def _concat(ck, ctx):
                   "the result of a script is the in-order concatenation of what each statement yields alone" +
                   ("" if ok else f": got {len(got) if isinstance(got, list) else type(got).__name__} entries, expected {len(exp)}"),
                   "Output.format (evaluated abstractly)")
+        # tables whose names differ only in quoting / letter case, with and without IF NOT EXISTS: each statement is reported
+        from ..specs.common import punct
+        P = punct(ctx.lexer)
+
+        def tbl(name_cls, ine):
+            def build(s_, a):
+                a = s_.words(a, "head", [("KW", "CREATE"), ("KW", "TABLE")])
+                if ine:
+                    a = s_.words(a, "head", [("KW", "IF"), ("KW", "NOT"), ("KW", "EXISTS")], begin=False)
+                a = s_.words(a, "head", [(name_cls, "name")], begin=False)
+                a = s_.words(a, "lp", [P["("]])
+                a = s_.words(a, "col", [(C["a"], "name"), (C["typ"], "type")])
+                return s_.words(a, "end", [P[")"]])
+            return A.parse_linear(ctx, f"concat-{name_cls.name}-{ine}", build)
+        variants = {"t": tbl(C["t"]["same"], False), "t (IF NOT EXISTS)": tbl(C["t"]["same"], True),
+                    '"t" (IF NOT EXISTS)': tbl(C["t"]["dq"], True), "T (IF NOT EXISTS)": tbl(C["t"]["upper"], True), '"t"': tbl(C["t"]["dq"], False)}
+        valone = {k: format_output(ctx, [copy.deepcopy(v)], "sql", False) for k, v in variants.items()}
+        for order in (["t", '"t" (IF NOT EXISTS)'], ["t", "T (IF NOT EXISTS)"], ["t", "t (IF NOT EXISTS)", '"t"'], ['"t"', "t"],
+                      ["t (IF NOT EXISTS)", "t (IF NOT EXISTS)"]):
+            got = format_output(ctx, [copy.deepcopy(variants[k]) for k in order], "sql", False)
+            exp = [x for k in order for x in valone[k]]
+            try:
+                ok = deep_eq(got, exp)
+            except NonUniform:
+                ok = False
+            ck.ob("O-concat", f"tables named alike up to quoting / case: {order}", ok,
+                  "every CREATE TABLE statement is reported, in order, as when it stands alone - also when an earlier table has the same name "
+                  "up to quoting or letter case, with or without IF NOT EXISTS" +
+                  ("" if ok else f": got {len(got) if isinstance(got, list) else type(got).__name__} entries, expected {len(exp)}"),
+                  "Output.format (evaluated abstractly)")
         # ALTER / INDEX results are merged into the table they follow - also when the same name is defined again later
         tb = base[2]
         alt = {"alter_table_name": copy.deepcopy(tb["table_name"]), "schema": None,
